@@ -29,6 +29,24 @@ Definition node_new (bs : list sboard) (announcer : list N) (local : N) (uid : l
                 else b :: go r done
     end in go bs false.
 
+(* bidib_state_node_lost: the board with this unique id (if configured) is disconnected; for an interface unique id
+   (class bit 7) every board beneath announcer ++ [local] is disconnected too; stored addresses are kept *)
+Definition strictly_beneath (p a : list N) : bool :=
+  Nat.ltb (length p) (length a) && list_eqb p (firstn (length p) a).
+Definition set_conn (b : sboard) (c : bool) : sboard :=
+  {| sb_uid := sb_uid b; sb_secack := sb_secack b; sb_conn := c; sb_addr := sb_addr b |}.
+Fixpoint lost_go (lost uid : list N) (iface : bool) (l : list sboard) (done : bool) : list sboard :=
+  match l with
+  | [] => []
+  | b :: r =>
+      let hit := negb done && list_eqb (sb_uid b) uid in
+      let b1 := if hit then set_conn b false else b in
+      let b2 := if iface && strictly_beneath lost (sb_addr b1) then set_conn b1 false else b1 in
+      b2 :: lost_go lost uid iface r (done || hit)
+  end.
+Definition node_lost (bs : list sboard) (announcer : list N) (local : N) (uid : list N) : list sboard :=
+  lost_go (extend_addr announcer local) uid (N.testbit (nth 0 uid 0) 7) bs false.
+
 (* bidib_state_get_board_ref_by_nodeaddr: first connected board with that address *)
 Definition board_at (bs : list sboard) (a : list N) : option sboard :=
   find (fun b => sb_conn b && list_eqb (canon (addr3_of (sb_addr b))) a) bs.
@@ -65,6 +83,10 @@ Definition handle_msg (w : sworld) (m : rmsg) : sworld * list (N * packet) :=
   let '(f1, p1) := flow_step (w_flow w) (FUp (m_addr m) (m_type m) (last_byte (m_raw m))) in
   if m_type m =? MSG_NODE_NEW then
     let bs := node_new (w_boards w) (m_addr m) (nth 1 data 0) (firstn 7 (skipn 2 data)) in
+    let '(f2, p2) := flow_run f1 [FSend (addr3_of (m_addr m)) MSG_NODE_CHANGED_ACK [nth 0 data 0]; FFlush] in
+    ({| w_boards := bs; w_flow := f2 |}, p1 ++ p2)
+  else if m_type m =? MSG_NODE_LOST then
+    let bs := node_lost (w_boards w) (m_addr m) (nth 1 data 0) (firstn 7 (skipn 2 data)) in
     let '(f2, p2) := flow_run f1 [FSend (addr3_of (m_addr m)) MSG_NODE_CHANGED_ACK [nth 0 data 0]; FFlush] in
     ({| w_boards := bs; w_flow := f2 |}, p1 ++ p2)
   else if secack_at (w_boards w) (m_addr m) then
